@@ -668,6 +668,17 @@ Proof.
   assert (a / m * 1 <= a / m * m) by (apply Z.mul_le_mono_nonneg_l; lia). lia.
 Qed.
 
+Lemma in_le_total l : (forall x, In x l -> 0 <= x) -> forall x, In x l -> x <= total l.
+Proof.
+  induction l as [|y t IH]; intros H x Hx; [contradiction|]. rewrite total_cons.
+  assert (0 <= total t) by (apply total_nonneg; intros z Hz; apply H; right; exact Hz).
+  assert (0 <= y) by (apply H; left; reflexivity).
+  destruct Hx as [->|Hx]; [lia|]. assert (x <= total t) by (apply IH; [intros z Hz; apply H; right; exact Hz|exact Hx]). lia.
+Qed.
+
+Lemma firstn_in {A} : forall k (l : list A) x, In x (firstn k l) -> In x l.
+Proof. induction k as [|k IH]; intros l x H; [contradiction|]. destruct l as [|y r]; [contradiction|]. destruct H as [<-|H]; [left; reflexivity|right; apply IH; exact H]. Qed.
+
 Theorem balance_vals_fit pb : t1d_dom pb -> Forall fits (balance_vals pb).
 Proof.
   intros (Du & Dv & Ds & Dd & Ts & Td & Hn & Ls & Ld).
@@ -683,25 +694,17 @@ Proof.
     set (m := zi (length (pb_v pb))). assert (Hmp : 0 < m) by (subst m; unfold zi; lia).
     set (missing := total (pb_s pb) - total (pb_d pb)) in *.
     destruct (quot_facts missing m Hm Hmp) as [Q1 Q2]. set (added := Z.quot missing m) in *.
-    assert (Hmm : m < 2147483647) by (unfold m; lia).
+    assert (Hmm : m < 2147483647) by (unfold m; rewrite Em; lia).
     unfold TOTB in *.
     repeat apply Forall_app2.
     + fits_list.
     + apply Forall_map_in. intros x Hx. pose proof (Dd x Hx).
-      assert (x <= total (pb_d pb)).
-      { clear -Hx Dd. induction (pb_d pb) as [|y t IH]; [contradiction|]. rewrite total_cons.
-        assert (0 <= total t) by (apply total_nonneg; intros z Hz; apply Dd; right; exact Hz).
-        assert (0 <= y) by (apply Dd; left; reflexivity).
-        destruct Hx as [->|Hx]; [lia|]. assert (x <= total t) by (apply IH; [exact Hx|intros z Hz; apply Dd; right; exact Hz]). lia. }
+      pose proof (in_le_total _ Dd x Hx).
       fit.
     + apply Forall_map_in. intros i Hi. apply in_seq in Hi. subst m. fit.
     + fits_list.
-    + apply Forall_map_in. intros x Hx. apply firstn_In in Hx. pose proof (Dd x Hx).
-      assert (x <= total (pb_d pb)).
-      { clear -Hx Dd. induction (pb_d pb) as [|y t IH]; [contradiction|]. rewrite total_cons.
-        assert (0 <= total t) by (apply total_nonneg; intros z Hz; apply Dd; right; exact Hz).
-        assert (0 <= y) by (apply Dd; left; reflexivity).
-        destruct Hx as [->|Hx]; [lia|]. assert (x <= total t) by (apply IH; [exact Hx|intros z Hz; apply Dd; right; exact Hz]). lia. }
+    + apply Forall_map_in. intros x Hx. apply firstn_in in Hx. pose proof (Dd x Hx).
+      pose proof (in_le_total _ Dd x Hx).
       fit.
     + apply Forall_map_in. intros i Hi. apply in_seq in Hi. fit.
 Qed.
